@@ -7,7 +7,7 @@
 From Virel Require Import Lib.Config Lib.U64 Lib.AMap Gen.Params Model.Emission Model.Ledger Model.Node Spec.Chain
   Proofs.Emission Proofs.Conservation Proofs.Pointwise Proofs.StakedSum Proofs.NodeBasics Proofs.ForkChoice Proofs.ChainInv
   Proofs.Refine2 Proofs.Undo Proofs.Undo2 Proofs.Undo4 Proofs.UndoRefuted
-  Proofs.Replay1 Proofs.Replay2 Proofs.Replay3 Proofs.Replay4 Proofs.Replay5.
+  Proofs.Replay1 Proofs.Replay2 Proofs.Replay3 Proofs.Replay4 Proofs.Replay5 Proofs.Replay6 Proofs.ChainExamples.
 Open Scope N_scope.
 
 Theorem C03_cfg_ok_mainnet : cfg_ok_emission cfg_mainnet = true. Proof. vm_compute. reflexivity. Qed.
@@ -316,6 +316,23 @@ Theorem C03_ledger_is_replay_general : forall cfg genesis_addr team_key g n0 ops
     same_accounts (ldg n) lr /\ dlgs (ldg n) = dlgs lr /\ staked (ldg n) = staked lr.
 Proof. exact ledger_is_replay. Qed.
 Print Assumptions C03_ledger_is_replay_general.
+
+(* non-vacuity: every premise holds for the history of Proofs/ChainExamples.v that reorganises from G-A1-A2-A3 to the
+   heavier chain G-B-D (three blocks disconnected, two connected); its final ledger is the replay of [B; D] *)
+Theorem C03_replay_premises_satisfiable :
+  node0 cfg_verifnet 7 w_genesis = Ok ex_n0 /\
+  let n := run cfg_verifnet 7 0 ex_n0 sr_ops in
+  cfg_ok_emission cfg_verifnet = true /\ cfg_ok_feepos cfg_verifnet = true /\
+  b_height w_genesis = 0 /\ b_cd w_genesis = b_diff w_genesis /\ N.of_nat (length sr_ops) < two64 - 1 /\
+  Forall (tx_c cfg_verifnet) (b_txs w_genesis) /\
+  (forall h b, get_block n h = Some b -> Forall (fun t => wf_tx cfg_verifnet t /\ ver_ok t = true) (b_txs b)) /\
+  (forall bs, up (b_hash w_genesis) (blocks n) (b_hash w_genesis) bs ->
+     NoDup (bkeys w_genesis ++ flat_map bkeys bs) /\ c0 w_genesis + bnouts bs < two64 /\ c0 w_genesis + bntx bs < two64) /\
+  map b_hash (mchain n) = [4; 6] /\
+  exists lr, apply_chain cfg_verifnet 7 (ldg ex_n0) (lbs n (mchain n)) = Ok lr /\
+    same_accounts (ldg n) lr /\ dlgs (ldg n) = dlgs lr /\ staked (ldg n) = staked lr.
+Proof. exact replay_premises_satisfiable. Qed.
+Print Assumptions C03_replay_premises_satisfiable.
 
 (* [mchain n] is the main chain: its hashes are the entries 1 .. top_h of the height index, and each is a stored block *)
 Theorem C03_main_chain_is_height_index : forall cfg genesis_addr team_key g n0 ops,
